@@ -100,6 +100,23 @@ def _structural_eq(a, b, depth=0):
     return None
 
 
+def _ip_text(v):
+    """Display of an IpAddr / Ipv4Addr / Ipv6Addr value as Rust prints it (RFC 5952 text; v4-mapped as `::ffff:a.b.c.d`)"""
+    import ipaddress
+    if v.k == "adt" and v.extra and str(v.extra[0]).endswith("IpAddr") and v.v and v.v[0].deref().k == "ip":
+        v = v.v[0].deref()
+    if v.k != "ip":
+        return None
+    b = bytes(v.v)
+    if len(b) == 4:
+        return str(ipaddress.IPv4Address(b))
+    if len(b) == 16:
+        if b[:10] == bytes(10) and b[10:12] == b"\xff\xff":
+            return "::ffff:" + str(ipaddress.IPv4Address(b[12:]))
+        return str(ipaddress.IPv6Address(b))
+    return None
+
+
 def _is_place(x):
     return isinstance(x, tuple) and len(x) > 1 and x[0] == "place"
 
@@ -680,6 +697,10 @@ class Interp:
             return r
         if cs.is_("alloc::string::ToString::to_string") and d and d[0].k in ("int", "char"):
             return vstr(str(d[0].v))
+        if cs.is_("alloc::string::ToString::to_string") and d:
+            t_ = _ip_text(d[0])
+            if t_ is not None:
+                return vstr(t_)
         if cs.is_(*TRANSPARENT) and args:
             a = args[0]
             if fn.endswith("clone") or fn.endswith("to_owned") or fn.endswith("to_string") or fn.endswith("into") or fn.endswith("from"):
@@ -1212,11 +1233,18 @@ class Interp:
             if m in ops:
                 r = ops[m]()
                 return vint(r) if r is not None else None
-        if "FromStr for core::net::ip_addr::Ip" in nm and m == "from_str" and d and d[0].k == "str":
+        parse_ip_ = None
+        if fn == "core::str::<impl str>::parse" and d and d[0].k == "str" and cs.gargs and cs.gargs[0] in ("core::net::ip_addr::IpAddr", "core::net::ip_addr::Ipv4Addr", "core::net::ip_addr::Ipv6Addr"):
+            parse_ip_ = cs.gargs[0]
+        if ("FromStr for core::net::ip_addr::Ip" in nm and m == "from_str" and d and d[0].k == "str") or parse_ip_:
             import ipaddress
+            if parse_ip_:
+                nm = "<impl core::str::traits::FromStr for %s>::from_str" % parse_ip_
             try:
                 ip = ipaddress.ip_address(d[0].v)
             except ValueError:
+                return Val("adt", [Val("unknown", "AddrParseError")], ("core::result::Result", "Err"))
+            if (parse_ip_ or "").endswith(("Ipv4Addr", "Ipv6Addr")) and ip.version != (4 if parse_ip_.endswith("Ipv4Addr") else 6):
                 return Val("adt", [Val("unknown", "AddrParseError")], ("core::result::Result", "Err"))
             inner = Val("ip", list(ip.packed), ip.version)
             if "IpAddr>" in nm or nm.endswith("IpAddr>::from_str") or "for core::net::ip_addr::IpAddr" in nm:
@@ -1289,10 +1317,20 @@ class Interp:
                     return Val("unknown", "ret:%s(%s)" % (st.extra[1], r.kind))
                 return Val("adt", [r.ret], ("core::task::poll::Poll", "Ready"))
             return None
-        if not self.follow(cs):
-            return None
         key = None
-        for nm in (cs.term.get("res"), cs.term.get("fn")):
+        if cs.fn == "core::convert::Into::into" and len(cs.gargs or []) == 2:
+            # the blanket `impl<T, U: From<T>> Into<U> for T`: `x.into()` IS `U::from(x)` — followed when that impl is workspace code
+            cand = "<%s as core::convert::From<%s>>::from" % (cs.gargs[1], cs.gargs[0])
+            if cand in prog.bodies:
+                class _Shim:
+                    name = cand
+                    fn = "core::convert::From::from"
+                    res = cand
+                if self.follow(_Shim):
+                    key = cand
+        if key is None and not self.follow(cs):
+            return None
+        for nm in ((cs.term.get("res"), cs.term.get("fn")) if key is None else ()):
             for cand in (nm, strip_generics(nm) if nm else None):
                 if cand and cand in prog.bodies:
                     key = cand
@@ -1606,6 +1644,8 @@ class Interp:
                 if all(x.k == d[1].k for x in known):
                     return vbool(any(x.v == d[1].v for x in known))
             return None
+        if a.k == "iter" and fn in ("core::iter::adapters::peekable::Peekable::peek", "core::iter::adapters::peekable::Peekable::peek_mut"):
+            return some(Val("ref", a.v[0])) if a.v else NONE_V
         if a.k != "iter" or not fn.startswith("core::iter::traits::"):
             return None
         items = list(a.v)
@@ -1663,6 +1703,8 @@ class Interp:
                 else:
                     return UNKNOWN
             return Val("iter", out)
+        if m in ("peekable", "fuse", "by_ref", "into_iter"):
+            return a if args[0].k != "ref" or m == "by_ref" else Val("iter", items)
         if m == "rev":
             return Val("iter", items[::-1])
         if m == "chain" and len(d) > 1 and d[1].k in ("iter", "list"):
